@@ -42,8 +42,9 @@ var mappings = []struct {
 	keys []keyDef
 }{
 	{"Piano", []keyDef{{"KEY_A", 60}, {"KEY_S", 61}, {"KEY_D", 64}, {"KEY_Z", 0}, {"KEY_X", 127}, {"KEY_Q", 60}}},
-	{"Control", []keyDef{{"KEY_A", 62}, {"KEY_S", 1}, {"KEY_X", 120}}},
-	{"Last", []keyDef{{"KEY_D", 48}, {"KEY_Z", 12}, {"KEY_Q", 126}}},
+	// (KEY_Q in Control and KEY_Z in Last play a pitch that a key WITHOUT function in that mapping plays in the mapping before)
+	{"Control", []keyDef{{"KEY_A", 62}, {"KEY_S", 1}, {"KEY_X", 120}, {"KEY_Q", 64}}},
+	{"Last", []keyDef{{"KEY_D", 48}, {"KEY_Z", 62}, {"KEY_Q", 126}}},
 }
 
 var actions = map[string]string{
@@ -583,7 +584,39 @@ func runLayout(res *vutil.Result, name string, leds []string, tier string) {
 				w.tap("KEY_F5")
 			}
 			if mp < len(mappings)-1 {
+				// a key that has a note here but no function in the next mapping is held across the switch and released
+				// there (its note keeps sounding until then): the frame follows every one of these steps
+				lost := ""
+				for _, k := range mappings[mp].keys {
+					has := false
+					for _, k2 := range mappings[mp+1].keys {
+						if k2.key == k.key {
+							has = true
+						}
+					}
+					if !has {
+						for _, k2 := range mappings[mp+1].keys {
+							if k2.note == k.note { // its pitch is on another key there: that key's LED shows it while it sounds
+								lost = k.key
+							}
+						}
+					}
+				}
+				if lost != "" {
+					w.press(lost)
+					w.check(chanColor)
+				}
 				w.tap("KEY_F12")
+				if lost != "" {
+					w.check(chanColor)
+					w.release(lost)
+					w.check(chanColor)
+					w.tap("KEY_F11") // ... and the other way round: back, hold, forth, release
+					w.press(lost)
+					w.tap("KEY_F12")
+					w.release(lost)
+					w.check(chanColor)
+				}
 			}
 		}
 		// indicators must distinguish the values
